@@ -708,6 +708,8 @@ func (fr *frame) typeAssert(b *ssa.BasicBlock, in *ssa.TypeAssert, reach Term, h
 		}
 		out.ts = append(out.ts, ok)
 		fr.bind(in, out)
+		// the value part is either the zero value or a valid value of the asserted type
+		x.sc.assert(implies(reach, x.typeFacts(in.AssertedType, Val{ts: fr.vals[in].ts[:len(res.ts)]}, h)))
 		return h
 	}
 	fr.safety(b, "type-assert", in.Pos(), reach, ok)
